@@ -232,18 +232,57 @@ Definition spec_augment (tm fm : option Z) (vals : list (Q * Q)) : res (option (
 (* ------------------------------------------------------------------ *)
 (* semseg transforms and SemsegTransformWrapper.getitem_xsemseg        *)
 (* ------------------------------------------------------------------ *)
+(* ---- nearest-neighbour resize as an index map -------------------------------------------------
+   Output index i of an axis resized from n_in to n_out entries shows source index
+       torch  (tensor inputs, InterpolationMode.NEAREST):  floor(i * n_in / n_out)
+       PIL    (PIL inputs,    Image.NEAREST):               floor((i + 1/2) * n_in / n_out)
+   NOMINALLY.  Both libraries compute the scale in floating point (torch: float32 scale, PIL: a running double sum),
+   and where the nominal quotient is an exact integer (a "tie": the sampling point sits on a pixel border) they
+   may return the pixel below.  Measured against torch 2.x / Pillow 12 for all n_in, n_out in 1..70 and some up to
+   500: the only deviation is -1 at ties (37 of ~5600 size pairs for torch, 924 for PIL), never elsewhere, and the
+   maps of float / int64 / uint8 tensors (resp. modes F / I / L) coincide.
+   The model therefore takes the index map of a resize as a recorded oracle value (one list per axis, measured by
+   the harness on an id ramp with the very call the code made) and accepts it only if it satisfies nn_okb. *)
+Inductive nn_kind := NTorch | NPil.
+
+Definition nn_nominal (k : nn_kind) (n_in n_out i : Z) : Z :=
+  match k with
+  | NTorch => i * n_in / n_out
+  | NPil => (2 * i + 1) * n_in / (2 * n_out)
+  end.
+Definition nn_tie (k : nn_kind) (n_in n_out i : Z) : bool :=
+  match k with
+  | NTorch => (i * n_in) mod n_out =? 0
+  | NPil => ((2 * i + 1) * n_in) mod (2 * n_out) =? 0
+  end.
+
+(* entries i, i+1, ... of a recorded map *)
+Fixpoint nn_entries_okb (k : nn_kind) (n_in n_out i : Z) (m : list Z) : bool :=
+  match m with
+  | [] => true
+  | v :: m' =>
+      let nom := nn_nominal k n_in n_out i in
+      (0 <=? v) && ((v =? nom) || ((v =? nom - 1) && nn_tie k n_in n_out i)) && nn_entries_okb k n_in n_out (i + 1) m'
+  end.
+Definition nn_okb (k : nn_kind) (n_in n_out : Z) (m : list Z) : bool :=
+  (Z.of_nat (length m) =? n_out) && nn_entries_okb k n_in n_out 0 m.
+
+Definition nn_at (m : list Z) (i : Z) : Z := if i <? 0 then -1 else nth (Z.to_nat i) m (-1).
+
 Inductive sop :=
 | SPad (th tw : Z)                       (* KDSemsegPad(size) *)
-| SRandResize (nh nw : Z)                (* KDSemsegRandomResize: the rounded target size is an oracle value *)
+| SRandResize (nh nw : Z) (k : nn_kind) (my mx : list Z)
+                                         (* KDSemsegRandomResize: the rounded target size and the nearest index maps
+                                            of the two axes are oracle values *)
 | SFlip (applied : bool)                 (* KDSemsegRandomHorizontalFlip: outcome of rng.random() < p *)
 | SCrop (th tw : Z) (redraws : nat)      (* KDSemsegRandomCrop; redraws made by the category-ratio loop *)
-| SResize (nh nw : Z)                    (* KDSemsegResize(size) *)
+| SResize (nh nw : Z) (k : nn_kind) (my mx : list Z)   (* KDSemsegResize(size); index maps as above *)
 | SOther.                                (* any non-semseg transform: applied to x only, geometry-preserving *)
 
 Inductive geom :=
 | GPad (p : pad4)
 | GCrop (r : rect)
-| GResize (nh nw : Z)
+| GResize (nh nw : Z) (my mx : list Z)
 | GFlip
 | GId.
 
@@ -254,7 +293,10 @@ Definition gimg_id (H W : Z) : gimg := {| gh := H; gw := W; gsrc := fun y x => S
 
 Definition inside (H W y x : Z) : bool := (0 <=? y) && (y <? H) && (0 <=? x) && (x <? W).
 
-(* torchvision.transforms.functional pad / crop / hflip / resize (nominal nearest map) as index maps *)
+(* torchvision.transforms.functional pad / crop / hflip / resize (nearest, recorded index maps) as index maps.
+   The mask is always resized with NEAREST.  The image is resized with the transform's `interpolation`; when that is
+   not nearest its gsrc under GResize names the source pixel the MASK shows at that output pixel (what the image
+   itself samples around is stated by nearest_vs_bilinear_grid_* in Property.v). *)
 Definition apply_geom (g : geom) (im : gimg) : gimg :=
   match g with
   | GPad (l, t, r, b) =>
@@ -263,8 +305,8 @@ Definition apply_geom (g : geom) (im : gimg) : gimg :=
   | GCrop (top, lft, h, w) =>
       {| gh := h; gw := w;
          gsrc := fun y x => if inside (gh im) (gw im) (top + y) (lft + x) then gsrc im (top + y) (lft + x) else None |}
-  | GResize nh nw =>
-      {| gh := nh; gw := nw; gsrc := fun y x => gsrc im (y * gh im / nh) (x * gw im / nw) |}
+  | GResize nh nw my mx =>
+      {| gh := nh; gw := nw; gsrc := fun y x => gsrc im (nn_at my y) (nn_at mx x) |}
   | GFlip => {| gh := gh im; gw := gw im; gsrc := fun y x => gsrc im y (gw im - 1 - x) |}
   | GId => im
   end.
@@ -292,13 +334,13 @@ Fixpoint semseg_crop_loop (n : nat) (th tw H W : Z) (p : rect) (ds : list draw) 
 Definition semseg_step (o : sop) (H W : Z) (ds : list draw) : res (geom * list draw) :=
   match o with
   | SPad th tw => Ok (GPad (semseg_pad_params th tw H W), ds)
-  | SRandResize nh nw => Ok (GResize nh nw, ds)
+  | SRandResize nh nw k my mx | SResize nh nw k my mx =>
+      if nn_okb k H nh my && nn_okb k W nw mx then Ok (GResize nh nw my mx, ds) else Mismatch
   | SFlip b => Ok (if b then GFlip else GId, ds)
   | SCrop th tw n =>
       if (10 <? Z.of_nat n) then Mismatch else
       bind (semseg_crop_params th tw H W ds) (fun '(p, ds) =>
       bind (semseg_crop_loop n th tw H W p ds) (fun '(p, ds) => Ok (GCrop p, ds)))
-  | SResize nh nw => Ok (GResize nh nw, ds)
   | SOther => Ok (GId, ds)
   end.
 
@@ -352,6 +394,21 @@ Section Tensors.
 End Tensors.
 Arguments patchify_image {A}. Arguments unpatchify_image {A}.
 Arguments patchify {A}. Arguments unpatchify {A}. Arguments shuffle {A}.
+
+(* PatchwiseTransform.__call__: Patchify -> "c sh sw ph pw -> c (sh sw) ph pw" -> transform(patches[:, i]) for
+   i = 0 .. sh*sw-1 -> stack(dim=1) -> "c (sh sw) ph pw -> c sh sw ph pw" -> Unpatchify.
+   f i = what the wrapped transform does to the i-th patch it is called on (a c x ph x pw tensor) *)
+Section Patchwise.
+  Variable A : Type.
+  Definition p3 : Type := Z -> Z -> Z -> A.                 (* one patch: c, p, q *)
+  Definition merge_seq (sw : Z) (u : t5 A) : t4 A := fun c l p q => u c (l / sw) (l mod sw) p q.
+  Definition split_seq (sw : Z) (u : t4 A) : t5 A := fun c a b p q => u c (a * sw + b) p q.
+  Definition map_patches (f : Z -> p3 -> p3) (u : t4 A) : t4 A :=
+    fun c l p q => f l (fun c' p' q' => u c' l p' q') c p q.
+  Definition patchwise (ph pw sw : Z) (f : Z -> p3 -> p3) (t : t3 A) : t3 A :=
+    unpatchify ph pw (split_seq sw (map_patches f (merge_seq sw (patchify ph pw t)))).
+End Patchwise.
+Arguments merge_seq {A}. Arguments split_seq {A}. Arguments map_patches {A}. Arguments patchwise {A}.
 
 (* PatchifyImage / Patchify: the divisibility assertion and the recorded lh, lw *)
 Definition patchify_params (ph pw H W : Z) : res (Z * Z) :=
